@@ -4,7 +4,7 @@ CONSTANTS CatchNotifications = TRUE
           Script <- MCScript
           Flavours <- MCFlavours
           Handlers = 2
-          Continue = "skip"
+          Continue = "unprotected"
 INVARIANT C26_SameExchange
 INVARIANT C26_Contained
 INVARIANT C26_Completes
